@@ -61,7 +61,8 @@ pub enum FinalReply {
     BerLong,
     /// same content in another BER-but-not-DER spelling: 0 = only the [0] version length in long form (81 03),
     /// 1 = outer SEQUENCE of indefinite length, 2 = pubKeyAuth as a constructed OCTET STRING of two segments,
-    /// 3 = the [3] wrapper of indefinite length
+    /// 3 = the [3] wrapper of indefinite length, 4 = every length with exactly one redundant leading zero octet
+    /// (81 9c -> 82 00 9c, 5c -> 81 5c), 5 = the same on the outer SEQUENCE only, 6 = on the OCTET STRING only
     BerForm(u8),
     ExtraTrailingField,
     MissingPubKeyAuth,
@@ -120,6 +121,9 @@ pub struct ServerParams {
     pub manual: bool,
     /// reactivations reuse the share id of the first activation (a server may do either)
     pub reuse_share_id: bool,
+    /// Some(v): the share id field of the server's four finalization PDUs holds v instead of the id of the demand-active
+    /// (Some(1) is special: the id of the PREVIOUS activation); the client takes its share id from the demand-active only
+    pub finalization_share_id: Option<u32>,
     /// TLS peer only: every server message (TPKT / fast-path frames, not the CredSSP messages) is cut into TLS records of at most this many plaintext bytes (0 = one
     /// record per message), so that record boundaries fall inside frame headers and bodies
     pub tls_record_cap: usize,
@@ -164,6 +168,7 @@ impl Default for ServerParams {
             errinfo_before: 0,
             sdi_priority: 0x70,
             reuse_share_id: false,
+            finalization_share_id: None,
             tls_record_cap: 0,
         }
     }
@@ -887,6 +892,13 @@ impl RefServer {
                 self.record(names[k as usize], unit, pending, tls);
                 if k == 3 {
                     let (sid, uid) = (self.current_share_id(), self.p.user_id);
+                    let real_sid = sid;
+                    let sid = match self.p.finalization_share_id {
+                        Some(1) => share_id_of_activation(self.p.share_id, self.activations_done.saturating_sub(1)),
+                        Some(v) => v,
+                        None => sid,
+                    };
+                    let _ = real_sid;
                     let extra = |me: &mut Self, k: usize, out: &mut Vec<Vec<u8>>| {
                         if me.p.errinfo_before == k {
                             let e = me.sdi(&share::set_error_info(sid, 1002, 0));
@@ -1039,7 +1051,34 @@ impl RefServer {
                         let (a, b) = sealed.split_at(sealed.len() / 2);
                         der::seq(&[version, der::explicit(3, &der::tlv(0x24, &[der::octets(a), der::octets(b)].concat()))])
                     }
-                    _ => der::seq(&[version, indefinite(0xA3, &der::octets(&sealed))]),
+                    3 => der::seq(&[version, indefinite(0xA3, &der::octets(&sealed))]),
+                    _ => {
+                        // minimal length octets plus one leading zero
+                        let plus_one = |tag: u8, content: &[u8]| -> Vec<u8> {
+                            let n = content.len();
+                            let minimal: Vec<u8> = n.to_be_bytes().iter().copied().skip_while(|b| *b == 0).collect();
+                            let mut v = vec![tag];
+                            if n < 0x80 {
+                                v.extend([0x81, n as u8]);
+                            } else {
+                                v.push(0x80 | (minimal.len() as u8 + 1));
+                                v.push(0);
+                                v.extend(&minimal);
+                            }
+                            v.extend_from_slice(content);
+                            v
+                        };
+                        let honest = |tag: u8, content: &[u8]| der::tlv(tag as u32, content);
+                        let (f_seq, f_wrap, f_oct): (bool, bool, bool) = match k {
+                            4 => (true, true, true),
+                            5 => (true, false, false),
+                            _ => (false, false, true),
+                        };
+                        let oct = if f_oct { plus_one(0x04, &sealed) } else { honest(0x04, &sealed) };
+                        let wrap = if f_wrap { plus_one(0xA3, &oct) } else { honest(0xA3, &oct) };
+                        let body = [version, wrap].concat();
+                        if f_seq { plus_one(0x30, &body) } else { honest(0x30, &body) }
+                    }
                 }
             }
             FinalReply::ExtraTrailingField => {
